@@ -277,7 +277,7 @@ def run_c01(ctx, g):
             f = flagsets[k % 16]
             c["running"], c["fuseTrk"], c["fuseVal"], c["fuseVel"] = f
             cases.append((len(cases), c, random_piece(rng, c)))
-    if ctx.thorough and not ctx.replay:
+    if ctx.fixtures and not ctx.replay:
         cases += [(len(cases) + i, c, pc) for i, (c, pc) in enumerate(fixture_pieces(rng))]
     obs = pmap(roundtrip, cases, chunk=200)
     for i, o in enumerate(obs):
@@ -652,7 +652,7 @@ def run_c03(ctx, g):
                 continue
             # cut fragments only have allowed note values after re-quantisation
             cases.append((len(cases), c, pc, cuts, True if crossing else rng.choice([True, False, "split"])))
-    if ctx.thorough and not ctx.replay:
+    if ctx.fixtures and not ctx.replay:
         for c, pc in fixture_pieces(rng):
             lines = list(range(96, pc["end"], 96))
             cases.append((len(cases), c, pc, [b for b in lines if rng.random() < .5], True))
